@@ -30,7 +30,7 @@ theorem dqStep_bump (env : Env) (s : DqSt) (k c : Nat) (cs : Bytes) :
   cases s.mode with
   | plain => exact dqPlain_bump _ _ _ _ _
   | envOpen => simp [sumBump, DqSt.bump]
-  | env i => simp only []; split <;> simp [sumBump, DqSt.bump]
+  | env i => simp only []; split <;> simp [sumBump, DqSt.bump] <;> split <;> omega
   | esc =>
     simp only []
     repeat' split
@@ -159,7 +159,7 @@ theorem lexInitial_bump (env : Env) (k : Nat) : ∀ (x : Bytes) (nl : Nat), lexI
                                 | nil => simp [lexWord, LexOut.bump]
                                 | cons d ds =>
                                   simp only []
-                                  split <;> simp [lexWord, LexOut.bump]
+                                  split <;> simp [lexWord, LexOut.bump, Nat.add_right_comm]
                               · simp only [h14, if_false]
                                 split
                                 · simp [lexWord, LexOut.bump]
